@@ -6,7 +6,7 @@ from mgrbase import MgrBase, protocol_scenario
 class C12(MgrBase):
     id = "C12"
     proof_target = "Props/C12.vo"
-    theorems = ["C12_have_absorbing", "C12_asked_advertised_lacked", "C12_invariant", "C12_invariant_step", "C12_released", "C12_task_guarantee", "C12_flags_agree", "C12_no_manager_panic", "C12_wf_preserved", "C12_task_commands_sendable", "C12_manager_handles", "C12_task_commands_deliverable", "C12_rotation_handles", "C12_listener_repaired", "C12_listener_keeps_invariant", "C12_listener_pinned_refuted"]
+    theorems = ["C12_have_absorbing", "C12_asked_advertised_lacked", "C12_invariant", "C12_invariant_step", "C12_released", "C12_task_guarantee", "C12_flags_agree", "C12_no_manager_panic", "C12_wf_preserved", "C12_task_commands_sendable", "C12_manager_handles", "C12_task_commands_deliverable", "C12_rotation_handles", "C12_reachable_wf", "C12_reachable_task_command_handled", "C12_listener_repaired", "C12_listener_keeps_invariant", "C12_listener_pinned_refuted"]
     coq_header = ("From Rdest Require Import Base Consts Wire Manager Corr.Mgr.\nOpen Scope N_scope.\n"
                   "Definition codes := codes12.\n")
     rule = ("event histories over 1-3 peers x 2-12 pieces that the connection tasks can produce (choke, unchoke, interested, "
